@@ -598,3 +598,11 @@ func canonUpstream(c *hctx) string {
 
 	return string(b)
 }
+
+func x(cond bool, a, b string) string {
+	if cond {
+		return a
+	}
+
+	return b
+}
